@@ -270,7 +270,7 @@ PROPS['C15'] = {
 for _u in PROPS['C15']['units']:
     PROPS['C07']['units'].append(_u)
 PROPS['C12'] = {
-    'units': ['fmt_go', 'fmt_swift', 'fmt_python', 'fmt_ts', 'contains', 'opt_python', 'pyclass', 'opt_ts'],
+    'units': ['fmt_go', 'fmt_swift', 'fmt_python', 'fmt_ts', 'contains', 'opt_python', 'pyclass', 'opt_ts', 'swiftvoid'],
     'title': 'every helper name typeshare introduces is defined or imported (bookkeeping kernel)',
     'technique': 'additional Verus postconditions on the type-expression translators of Go, Swift, Python and TypeScript (the same verbatim extraction as C05): '
                  'whenever the translation reaches a built-in type whose spelling uses a helper, the helper has been recorded; plus contracts on '
@@ -287,8 +287,9 @@ PROPS['C12'] = {
                   'serde(default)), typing.Optional whenever the writer wraps the type in `Optional[..]`, typing.Annotated / pydantic.BeforeValidator / '
                   'PlainSerializer whenever the type text has a custom (de)serialiser; handle_model_config records pydantic.ConfigDict whenever it writes the '
                   '`model_config = ConfigDict(..)` line; none of these functions loses a recorded import or type variable. TypeScript::end_file (verbatim, unit opt_ts): '
-                  'whenever a type text has been recorded for the reviver / replacer helpers, the text it appends contains the declaration `export const ReviverFunc` (taken from the literal).',
-    'level_note': 'Kernel at the level of what is RECORDED (and, for TypeScript\'s footer, that the recorded flag makes end_file write the declaration). That the recorded imports / '
+                  'whenever a type text has been recorded for the reviver / replacer helpers, the text it appends contains the declaration `export const ReviverFunc` (taken from the literal). '
+                  'Swift::end_file / get_codable_contents / write_codable (verbatim, unit swiftvoid): with the CodableVoid flag set and one output file, the appended text contains `public struct CodableVoid`.',
+    'level_note': 'Kernel at the level of what is RECORDED (and, for TypeScript\'s footer and Swift\'s CodableVoid in single-file mode, that the recorded flag makes end_file write the declaration). That the recorded imports / '
                   'the CodableVoid definition / the Scala package object are then WRITTEN, that names used on other paths (Python enums: Enum, Literal, Union and their TypeVars; Go json.) are imported, '
                   'and Scala::unsigned_integer_used\'s collection of the file\'s types (iterator chains) are not proved: bounded stand-in helper-search. '
                   'Assumed: add_import / add_imports record and only add (entry-API stubs); AtomicBool::store modelled as an update (sequential code).',
@@ -297,6 +298,7 @@ PROPS['C12'] = {
 }
 PROPS['C07']['units'].append('contains')
 PROPS['C07']['units'].append('pyclass')
+PROPS['C07']['units'].append('swiftvoid')
 PROPS['C08'] = {
     'units': ['errgate', 'merge'],
     'title': 'a recorded parse error ends the run with an error before anything is written (error-gate kernel)',
